@@ -16,6 +16,7 @@ package main
 //   p:<id>                    job checkpoint id became the job's current checkpoint (file written)
 //   k:<w>                     worker w halted
 //   R:<n>:<ck>:<c0.c1...>:<j|w>  deployment finished: n workers, restored from checkpoint ck with these cursors
+//   L:<n>:<ck>:<c0.c1...>:<j|w>  the same, but a node process of the new assembly had been deployed before (D39)
 //   z...                      activity of a halted worker (ignored by the model)
 //   sa:... / !...             things that must not happen (the model has no such step)
 
@@ -236,6 +237,9 @@ type c01Worker struct {
 	opIdx int
 	srIdx int
 	dep   int // deployment number of the last Deploy request this worker's operator completed
+	// number of Deploy requests this worker's operator has completed: more than one = the process was alive
+	// when it was deployed again
+	deploys int
 }
 
 type c01World struct {
@@ -374,7 +378,13 @@ func (s *c01Splitter) Start(ckpt *snapshotpb.SourceCheckpoint) error {
 	if w.deployCk != ck {
 		w.log("!deploy-ck:%s", w.deployCk)
 	}
-	w.log("R:%d:%s:%s:%s", len(s.ids), ck, strings.Join(cs, "."), kind)
+	tag := "R"
+	for _, id := range s.ids {
+		if wk := w.byID[id]; wk != nil && wk.deploys > 1 {
+			tag = "L" // the assembly contains a node process that had been deployed before (finding D39)
+		}
+	}
+	w.log("%s:%d:%s:%s:%s", tag, len(s.ids), ck, strings.Join(cs, "."), kind)
 	n := len(s.ids)
 	as := map[string][]*workerpb.SourceSplit{}
 	for sp := 0; sp < w.cfg.nsplits; sp++ {
@@ -622,6 +632,11 @@ func (w *c01World) gateAck(a *c01Ack) error {
 	a.release = make(chan bool, 1)
 	a.done = make(chan struct{})
 	w.mu.Lock()
+	if a.wk.killed.Load() || w.jobDown { // the process is dead (or its job is): the call is never made
+		w.mu.Unlock()
+		close(a.done)
+		return errC01Unreachable
+	}
 	a.dep = a.wk.dep
 	w.acks = append(w.acks, a)
 	w.mu.Unlock()
@@ -635,6 +650,9 @@ func (w *c01World) gateAck(a *c01Ack) error {
 		return errC01Unreachable
 	}
 	w.mu.Lock()
+	if os.Getenv("C01_DEBUG") != "" {
+		fmt.Fprintf(os.Stderr, "gateAck released kind=%c worker=%d id=%d a.dep=%d w.dep=%d killed=%v jobDown=%v\n", a.kind, a.wk.num, a.id, a.dep, w.dep, a.wk.killed.Load(), w.jobDown)
+	}
 	if a.wk.killed.Load() || w.jobDown {
 		w.mu.Unlock()
 		return errC01Unreachable
@@ -695,6 +713,18 @@ func (o *c01OpClient) HandleEventBatch(ctx context.Context, batch []*workerpb.Ev
 			return errC01Unreachable
 		}
 		if err := o.target.w.Operator.HandleEvent(ctx, o.sender, e); err != nil {
+			if !o.target.killed.Load() {
+				msg := err.Error()
+				if len(msg) > 60 {
+					msg = msg[:60]
+				}
+				o.w.mu.Lock()
+				o.w.notes["HandleEvent error: "+msg]++
+				o.w.mu.Unlock()
+				if os.Getenv("C01_DEBUG") != "" {
+					fmt.Fprintf(os.Stderr, "HandleEvent %s -> %s: %v\n", o.sender, o.target.opID, err)
+				}
+			}
 			return err
 		}
 	}
@@ -737,6 +767,7 @@ func (o *c01OpClient) Deploy(ctx context.Context, req *workerpb.DeployOperatorRe
 	w.mu.Lock()
 	if err == nil {
 		o.target.dep = w.dep + 1
+		o.target.deploys++
 		o.target.opIdx = -1
 		for i, id := range ids {
 			if id == o.target.opID {
